@@ -1221,6 +1221,15 @@ class LogicalBracket_2d(BracketBasic):
         return dx1(u)*dx2(v) - dx2(u)*dx1(v)
 
 #==============================================================================
+def _is_atom_of(a, atom):
+    """True if the innermost argument `a` of a derivative is `atom`, or one of
+    the components of `atom` when `atom` is a VectorFunction."""
+    if a == atom:
+        return True
+    return (isinstance(atom, VectorFunction) and
+            isinstance(a, IndexedVectorFunction) and a.base == atom)
+
+#==============================================================================
 def get_index_derivatives_atom(expr, atom, verbose=False):
     """This function return a dictionary of partial derivative indices for
     a given atom.
@@ -1233,7 +1242,7 @@ def get_index_derivatives_atom(expr, atom, verbose=False):
     indices = []
     for i in ops:
         a = get_atom_derivatives(i)
-        if a == atom:
+        if _is_atom_of(a, atom):
             index = get_index_derivatives(i)
             indices.append(index)
 
@@ -1252,7 +1261,7 @@ def get_index_logical_derivatives_atom(expr, atom, verbose=False):
     indices = []
     for i in ops:
         a = get_atom_logical_derivatives(i)
-        if a == atom:
+        if _is_atom_of(a, atom):
             index = get_index_logical_derivatives(i)
             indices.append(index)
 
